@@ -662,7 +662,9 @@ class WhichShim:
         self.available = available
 
     def which(self, name, *a, **kw):
-        exes = EXES[self.sim.kind] if self.available is None else self.available
+        # every scheduler's commands "exist"; one that does not belong to the simulated cluster answers 127 (and is journaled),
+        # which is how the checks see *which* backend gwf selected
+        exes = [e for v in EXES.values() for e in v] if self.available is None else self.available
         return f"/sim/bin/{name}" if name in exes else None
 
 
